@@ -390,6 +390,11 @@ class Gen:
         files = {}
         for i in range(r.choice([1, 1, 1, 2, 2, 3])):
             files["mod_%s%d.py" % (chr(97 + i), r.below(90))] = self.module("m%d" % i)
+        if len(files) >= 2 and r.chance(0.25):
+            # a file of the same basename in a sub-directory (no __init__.py)
+            self.meta["features"].append("same_basename_in_subdir")
+            first = sorted(files)[0]
+            files["sub/" + first] = self.module("s0")
         enable = sorted({c for a in self.meta["atoms"] if a in ATOMS for c in ATOMS[a].get("enable", [])})
         self.meta["enable"] = enable
         self.meta["extra_args"] = ["--maximum-positional-args", "3"] if any(ATOMS.get(a, {}).get("needs_max_pos") for a in self.meta["atoms"]) else []
